@@ -138,6 +138,9 @@ class _StereoMixin(Generic[A, P]):
     def __eq__(self, other: Any) -> bool:
         if not hasattr(other, "atoms") or not hasattr(other, "parity"):
             return NotImplemented
+        if type(other) is not type(self):
+            # the comparison below uses the symmetry table of self only
+            return False
         s_atoms, o_atoms = self.atoms, other.atoms
         set_s_atoms = set(s_atoms)
         set_o_atoms = set(o_atoms)
